@@ -45,6 +45,8 @@ pub(crate) mod idxkey;
 pub(crate) mod keystorage;
 
 pub(crate) use self::idxkey::{IdxKey, IdxKeyRef, IdxKeyToRef, IdxSlope};
+#[cfg(feature = "verif-hooks")]
+pub(crate) use self::idl_arc_sqlite::IdlArcSqliteTransaction as VerifIdlArcSqliteTransaction;
 use crate::be::idl_arc_sqlite::{
     IdlArcSqlite, IdlArcSqliteReadTransaction, IdlArcSqliteTransaction,
     IdlArcSqliteWriteTransaction,
